@@ -73,6 +73,39 @@ func era(f uint32) string {
 
 var fixedTxID = bytes.Repeat([]byte{0x11}, 32)
 
+// flagOptions expresses one flag set as Execute options in one of four
+// equivalent ways (options accumulate flags, in any order): a single
+// WithFlags; the convenience options WithAfterGenesis / WithForkID / WithP2SH
+// followed by WithFlags(rest); the same the other way round; two WithFlags
+// calls. The style is a function of the case (salt) so that replays repeat it.
+func flagOptions(flags uint32, salt int) []interpreter.ExecutionOptionFunc {
+	f := scriptflag.Flag(flags)
+	var conv []interpreter.ExecutionOptionFunc
+	rest := f
+	if f&scriptflag.UTXOAfterGenesis != 0 {
+		conv, rest = append(conv, interpreter.WithAfterGenesis()), rest&^scriptflag.UTXOAfterGenesis
+	}
+	if f&scriptflag.EnableSighashForkID != 0 {
+		conv, rest = append(conv, interpreter.WithForkID()), rest&^scriptflag.EnableSighashForkID
+	}
+	if f&scriptflag.Bip16 != 0 {
+		conv, rest = append(conv, interpreter.WithP2SH()), rest&^scriptflag.Bip16
+	}
+	if salt < 0 {
+		salt = -salt
+	}
+	switch salt % 4 {
+	case 1:
+		return append(conv, interpreter.WithFlags(rest))
+	case 2:
+		return append([]interpreter.ExecutionOptionFunc{interpreter.WithFlags(rest)}, conv...)
+	case 3:
+		lo := f & 0x5555_5555
+		return []interpreter.ExecutionOptionFunc{interpreter.WithFlags(lo), interpreter.WithFlags(f &^ lo)}
+	}
+	return []interpreter.ExecutionOptionFunc{interpreter.WithFlags(f)}
+}
+
 // libOptions builds the Execute options for a program; scripts are copied so
 // that the monitor's own input is never shared with the library.
 func libOptions(in *progInput) (opts []interpreter.ExecutionOptionFunc, tx *bt.Tx, unlock, lock *bscript.Script) {
@@ -88,7 +121,7 @@ func libOptions(in *progInput) (opts []interpreter.ExecutionOptionFunc, tx *bt.T
 	} else {
 		opts = append(opts, interpreter.WithScripts(lock, unlock))
 	}
-	opts = append(opts, interpreter.WithFlags(scriptflag.Flag(in.Flags)))
+	opts = append(opts, flagOptions(in.Flags, len(in.Unlock)+3*len(in.Lock)+int(in.Flags%7))...)
 	return
 }
 
